@@ -204,24 +204,33 @@ func fastaShape(k *K, recs []*fasta.Fasta, text []byte) {
 }
 
 func fastaDecodeCompare(k *K, what string, recs []*fasta.Fasta, text []byte) {
-	i := 0
+	// Records are held until the iteration is over and compared only then: a
+	// reader that recycles a record's buffers for the next record is seen.
+	var held []*fasta.Fasta
 	for got, err := range fasta.Reader(bytes.NewReader(text)) {
 		if err != nil {
-			k.Failf("roundtrip", "%s: reader error at item %d: %v", what, i, err)
+			k.Failf("roundtrip", "%s: reader error at item %d: %v", what, len(held), err)
 			return
 		}
-		if i >= len(recs) {
+		if len(held) >= len(recs) {
 			k.Failf("roundtrip", "%s: more than %d records decoded; extra: %s", what, len(recs), fastaKey(got))
 			return
 		}
-		if !bytes.Equal(got.Name, recs[i].Name) || !bytes.Equal(got.Sequence, recs[i].Sequence) {
-			k.Failf("roundtrip", "%s: record %d decoded as %.300s, want %.300s", what, i, fastaKey(got), fastaKey(recs[i]))
+		if !bytes.Equal(got.Name, recs[len(held)].Name) || !bytes.Equal(got.Sequence, recs[len(held)].Sequence) {
+			k.Failf("roundtrip", "%s: record %d decoded as %.300s, want %.300s", what, len(held), fastaKey(got), fastaKey(recs[len(held)]))
 			return
 		}
-		i++
+		held = append(held, got)
 	}
-	if i != len(recs) {
-		k.Failf("roundtrip", "%s: decoded %d records, want %d", what, i, len(recs))
+	if len(held) != len(recs) {
+		k.Failf("roundtrip", "%s: decoded %d records, want %d", what, len(held), len(recs))
+		return
+	}
+	for i, got := range held {
+		if !bytes.Equal(got.Name, recs[i].Name) || !bytes.Equal(got.Sequence, recs[i].Sequence) {
+			k.Failf("record-not-stable", "%s: record %d was correct when yielded but reads %.300s after the iteration went on (want %.300s)", what, i, fastaKey(got), fastaKey(recs[i]))
+			return
+		}
 	}
 }
 
